@@ -201,6 +201,8 @@ def pair_suites(fmt, tier, pp="C03"):
     alpha = FA if fmt == "fasta" else FQ
     L = q(tier, 5, 6) if fmt == "fasta" else q(tier, 6, 7)
     pols = [{"k": "std"}, {"k": "plus", "a": 1}, {"k": "du", "a": 4}, {"k": "dul", "a": 8, "b": 1 << 20}]
+    # (the limits 24 and 32 are reached exactly by doubling from 3 / by 16 + 16: sizes the policy still permits)
+    pols += [{"k": "dul", "a": 1 << 20, "b": 24}, {"k": "dul", "a": 16, "b": 32}]
     if pp == "C14":
         return [
             ("pair-intr-enum", suite(fmt, enum(alpha, L), [3, 5, 64], {"fixed": [NEXT, SET0]}, chunks=[[0], [1]], intr=[0, 1 + 1, 3], pols=[{"k": "std"}],
